@@ -502,6 +502,7 @@ dgsitrf(superlu_options_t *options, SuperMatrix *A, int relax, int panel_size,
 			int_t nzlumax = Glu->nzlumax;
 			int error = dLUMemXpand(jj, xlusup[jj], LUSUP, &nzlumax, Glu);
 			if (error) { *info = error; goto cleanup; }
+			lsub = Glu->lsub; /* moved along inside a user work[] */
 		    }
 		    xlusup[jj + 1]++;
 		    ((double *) Glu->lusup)[xlusup[jj]] = zero;
